@@ -55,6 +55,11 @@ CHECKS = {
    text="Schema.doc_table documents, for all ~210 defined factory signatures, the accessor under which each operand must read back. Properties_C02.v proves on the regenerated tables: every factory of the current source has a row; every operand is documented under some accessor; wherever the translator could read the body (make(farm,args).with_type(t) / farm.make(args)) the slot each documented accessor resolves to (through the CURRENT header's forwarding) holds the documented operand, and therefore for EVERY argument tuple the built node reads back what the documentation says, absent Optionals reading absent. The sweep calls every factory with two fully distinguishable tuples, absent optionals, equal operands and seeded random tuples and compares every documented accessor (about 6000 values quick) and every modelled constructor slot with the implementation.",
    note="Trusted: Coq kernel, the AST translator (fails closed: unreadable bodies are 'opaque' and covered by the sweep only), extraction, fsweep driver (generated), ASan/UBSan. Modelled by hand: the constructor slot order of the implementation classes that have their own constructor (Schema.ctor_slots), and the documentation table itself (the specification). Builders reached through members (param, add_member, declare_*) are covered by C07/C12.",
    ref="DESIGN.md §6 C02"),
+ "C05": dict(
+   technique="Coq proof of the logical half over append-only construction histories (induction over the operation list); container-kind lemma by vm_compute over the standard containers and growth operations the current source uses (regenerated from the clang AST) for the physical half; long seeded histories over the complete factory list with every earlier node re-observed under ASan+UBSan",
+   text="PARTIAL by nature (stated in the theorem name): Stability.v proves for every history h1 ++ h2 that a node created in h1 keeps its index, category, operands and typing, and that its member list after h2 is its list after h1 followed by exactly the additions h2 aims at that node; an untouched node is identical; every generative call yields an index distinct from all live ones. 'Keeps its address' and 'stays valid' are memory facts a Gallina model cannot exhibit: they rest on c05_object_stores_reference_stable_partial (every store holding node OBJECTS is a forward_list / deque grown by emplace_back / map, and the growth operations it calls keep references valid under the C++ standard's rules; a vector of objects or a deque insert fails it) and on ASan histories: 2.5k (thorough 124k) steps, each returned node remembered with its address and the reading of every accessor, all re-observed after every early step, 25 random ones after every later step, all of them every 1500 steps; products of destroyed Warehouses re-read; equal addresses among generative results reported.",
+   note="Trusted: Coq kernel, extractor, history driver (generated dispatcher), ASan/UBSan, and the C++ standard's container invalidation rules as encoded in Stability.growth_keeps_references. Modelled: node identity as creation index. A declaration's decl-set and a container's member list are allowed to grow at their end (explicit additions).",
+   ref="DESIGN.md §6 C05"),
  "C09": dict(
    technique="Coq proof: a prescription table (one typing rule per node category) checked by vm_compute against the body of every type() member function and the class-to-category resolution, both re-translated from the clang AST on every run; interpretation theorems over any heap of nodes; sweep of every factory, zoo of all categories and growing sequences under ASan compared with the rules and the extracted model",
    text="Typing.prescribed gives all 146 typed categories a rule (fixed constant, first operand, type of a designated sub-node, stored at construction, declaration type, product of members). Properties_C09.v proves on the regenerated tables that the type() body a node of each category runs reads exactly the prescribed rule (through the current header's accessor forwarding), that every class defining type() is accounted for, that every typed category is prescribed; and for every heap: kind-fixed types are independent of operands, borrowed types equal the designated sub-node's type and are refused when it is unset, cast/literal types are the first operand, constructed types are what was given, and the type of a sequence node after any addition is the product of its current members' types. Dynamically: type() of ~1000 factory results and 200 zoo nodes is judged by rule; scopes, parameter lists, base lists, enumerations and expression lists are grown and re-read after every addition, also through a reference obtained before the first addition.",
